@@ -12,6 +12,10 @@ CLAIMED = {
             "exhaustive fault/interruption-point enumeration over all composites up to length 3 (4 thorough) on the real ChangeSet/History code",
             "Every composite change enabled in a dictionary model of the tree (23 sub-change alphabet, nested variants, three real refactoring change sets) is executed on the real implementation once per deviation: a fault at every mutating fs command and a stop() at every task-handle notification, during do, undo and redo; after each, the tree snapshot, the identity of the history lists and a fault-free retry are checked.",
             "fault model: failing command raises and has no effect; one deviation per execution; rollback runs fault-free; bounded alphabet and length", "3/C10"),
+    "C11": ("model_checking",
+            "explicit-state exploration of all do/undo/redo/selective/drop histories to depth 4 (5-6 thorough) on the real History, against a dictionary reference model",
+            "A state is the event history reaching it; every enabled sequence of do (18 change shapes), undo, redo, undo(change=i), redo(change=i), undo(drop=True) for history limits {0,1,2,32} is replayed on a fresh real Project and its last step is compared with a reference model (tree, both lists, returned changes, limit, refusal on empty) and with the property's declarative oracle (base snapshot + remaining changes replayed).",
+            "reference model and dependency closure written independently (dict + lists); bounded depth/alphabet; every transition is an implementation step, so traces_validated_against_impl = sequences explored", "3/C11"),
 }
 
 PENDING_REASON = "check not built yet in this session (see DESIGN.md section 8 build order); nothing is claimed for it"
